@@ -4,10 +4,15 @@ import RadicaleModel.Str
 
   * clock: `now` in nanoseconds, read once per call (the harness' clock shim is constant during a call);
     ages are `int((now - t) / 1000 / 1000 / 1000)`, modelled as floor division (exact for |now - t| < 2^53 ns).
-  * SHA3-512 is a symbolic perfect hash: a digest *is* the triple it was computed from.
+  * SHA3-512 is a symbolic perfect hash *of the byte string it is fed*: a digest is that string,
+    `str(salt) ":" login ":" password` (repaired code, fix F26; before the repair the three parts were
+    concatenated without separators, `digestUnsep`, which is ambiguous as soon as two clock readings differ in
+    their number of decimal digits).
   * the back-end `_login` is a function `Str → Str → Str` ("" = rejected) that may differ from call to call.
+  * the failed-login cache is keyed by the Python string `login + ":" + str(digest)`; the model keys it by the
+    pair (login, digest input) — that the string determines the pair is part of the trusted base.
   * the model follows the repaired code (fix F10/F11: the expiry sweep uses its own loop variables;
-    fix F17: a cached success answers with the user name the back-end returned).
+    fix F17: a cached success answers with the user name the back-end returned; fix F26: separators).
 -/
 namespace Radicale
 namespace AuthCache
@@ -15,14 +20,19 @@ namespace AuthCache
 structure Cfg where
   succExp : Nat
   failExp : Nat
+  failSalt : Nat := 0          -- `_cache_failed_logins_salt_ns`, the clock reading at start-up
   deriving Repr
 
-/-- symbolic SHA3 digest of (salt, login, password) -/
-structure Digest where
-  salt : Nat
-  login : Str
-  pw : Str
-  deriving DecidableEq, Repr
+/-- `str(n)` -/
+def dec (n : Nat) : Str := Nat.toDigits 10 n
+
+/-- what `_cache_digest` feeds to SHA3-512: salt, login and password, separated -/
+def digest (salt : Nat) (l pw : Str) : Str := dec salt ++ ':' :: (l ++ ':' :: pw)
+
+/-- the input before fix F26: plain concatenation -/
+def digestUnsep (salt : Nat) (l pw : Str) : Str := dec salt ++ l ++ pw
+
+abbrev Digest := Str
 
 structure SuccEntry where
   digest : Digest
@@ -33,7 +43,7 @@ structure SuccEntry where
 /-- the two caches as finite maps (Python dicts; iteration order is irrelevant in the repaired code) -/
 structure State where
   succ : Str → Option SuccEntry            -- `_cache_successful`: login ↦ (digest, time_ns, user)
-  failed : Str × Str → Option Nat          -- `_cache_failed`: (login, password) ↦ time_ns   (salt is constant)
+  failed : Str × Str → Option Nat          -- `_cache_failed`: (login, digest with the constant salt) ↦ time_ns
 
 def State.init : State := ⟨fun _ => none, fun _ => none⟩
 
@@ -56,29 +66,30 @@ structure Result where
 
 /-- the part of `login` after both cache look-ups missed: ask the back-end, update the caches.
     `dg` is the value of the local variable `digest` ("" = `none`). -/
-def backendPath (succ : Str → Option SuccEntry) (failed : Str × Str → Option Nat) (now : Nat)
+def backendPath (cfg : Cfg) (succ : Str → Option SuccEntry) (failed : Str × Str → Option Nat) (now : Nat)
     (backend : Str → Str → Str) (l pw : Str) (dg : Option Digest) : Result :=
   let r := backend l pw
+  let fk := (l, digest cfg.failSalt l pw)
   if r ≠ [] then
-    let d : Digest := match dg with | some d => d | none => ⟨now, l, pw⟩
-    ⟨r, ⟨upd succ l (some ⟨d, now, r⟩), upd failed (l, pw) none⟩, true, false⟩
+    let d : Digest := match dg with | some d => d | none => digest now l pw
+    ⟨r, ⟨upd succ l (some ⟨d, now, r⟩), upd failed fk none⟩, true, false⟩
   else
-    ⟨[], ⟨succ, upd failed (l, pw) (some now)⟩, true, false⟩
+    ⟨[], ⟨succ, upd failed fk (some now)⟩, true, false⟩
 
 /-- `BaseAuth.login` after the login-name mapping (lc/uc/strip_domain), cache enabled -/
 def login (cfg : Cfg) (st : State) (now : Nat) (backend : Str → Str → Str) (l pw : Str) : Result :=
   let failed := sweep cfg now st.failed
-  if (failed (l, pw)).isSome then
+  if (failed (l, digest cfg.failSalt l pw)).isSome then
     ⟨[], ⟨st.succ, failed⟩, false, true⟩                      -- cached failure
   else
     match st.succ l with
-    | none => backendPath st.succ failed now backend l pw (some ⟨now, l, pw⟩)
+    | none => backendPath cfg st.succ failed now backend l pw (some (digest now l pw))
     | some e =>
-      if (⟨e.time, l, pw⟩ : Digest) = e.digest then
+      if digest e.time l pw = e.digest then
         if age now e.time > cfg.succExp then
-          backendPath (upd st.succ l none) failed now backend l pw none   -- expired: entry deleted, digest := ""
+          backendPath cfg (upd st.succ l none) failed now backend l pw none   -- expired: entry deleted, digest := ""
         else ⟨e.user, ⟨st.succ, failed⟩, false, true⟩                     -- cached success
-      else backendPath st.succ failed now backend l pw (some ⟨e.time, l, pw⟩)  -- digest keeps the *old* salt
+      else backendPath cfg st.succ failed now backend l pw (some (digest e.time l pw))  -- digest keeps the *old* salt
 
 /-- login-name mapping, ASCII part (`str.lower`/`str.upper`) + `split('@')[0]` -/
 def mapLogin (lc uc strip : Bool) (l : Str) : Str :=
